@@ -86,6 +86,24 @@ class PathRun:
         k = st["k"]
         if k == "CXXBoolLiteralExpr":
             return ("lit", bool(st["v"]))
+        # an exception carried as a value (std::exception_ptr): null / non-null
+        if k == "CXXNullPtrLiteralExpr":
+            return ("null",)
+        if k == "CallExpr" and callee_fq(st) == "std::current_exception":
+            return ("nonnull",)
+        if k in CTORS and "exception_ptr" in st.get("t", ""):
+            if not st["args"]:
+                return ("null",)
+            if len(st["args"]) == 1:
+                return self.value(f.s(st["args"][0]))
+        if k == "CXXMemberCallExpr" and (st.get("callee") or {}).get("name") == "operator bool" and \
+                "exception_ptr" in (f.s(st.get("obj")) or {}).get("t", ""):
+            v = self.value(f.s(st["obj"]))
+            if v[0] == "null":
+                return ("lit", False)
+            if v[0] == "nonnull":
+                return ("lit", True)
+            return ("unknown",)
         if k == "UnaryOperator" and st["op"] == "!":
             return _neg(self.value(f.children(st)[0]))
         if k == "UnaryOperator" and st["op"] == "&":
@@ -226,6 +244,15 @@ class PathRun:
                 v = self.value(r)
                 self.env["l:" + lu["d"]["name"]] = v
                 self.env["#" + lu["d"]["id"]] = v
+        elif k == "CXXOperatorCallExpr" and st.get("op") == "=" and len(st["args"]) == 2 and \
+                "exception_ptr" in (f.s(st["args"][0]) or {}).get("t", ""):
+            lu = unwrap(f, f.s(st["args"][0]))
+            if lu is not None and lu["k"] == "DeclRefExpr" and lu["d"].get("k") == "local":
+                v = self.value(f.s(st["args"][1]))
+                self.env["l:" + lu["d"]["name"]] = v
+                self.env["#" + lu["d"]["id"]] = v
+        elif k == "CallExpr" and callee_fq(st) == "std::rethrow_exception":
+            self.events.append(("rethrow", self.value(f.s(st["args"][0])) if st["args"] else ("unknown",), None, pos, st))
         elif st["id"] in self.atomic:
             op = self.atomic[st["id"]]
             fld = self.atomic_field(op)
@@ -343,9 +370,9 @@ def helper_summary(g, depth=1):
     return res
 
 
-def run_paths(f, unroll=None):
+def run_paths(f, unroll=None, start=None):
     out = []
-    for p in paths(f, unroll=unroll):
+    for p in paths(f, unroll=unroll, start=start):
         r = PathRun(f, p).run()
         if r.ok:
             out.append(r)
